@@ -143,6 +143,36 @@ m("c14-poisoned-check-removed", "C14", "nomt/src/store/mod.rs",
   "",
   "guardfx|store::Store::commit|guard=poisoned")
 
+# ---- C03 O13: the WAL covers the hash-table writeout ----
+m("c03-wal-clear-dropped", "C03", "nomt/src/bitbox/mod.rs",
+  "                wal_blob_builder.write_clear(bucket);\n",
+  "",
+  "O13|bitbox::DB::prepare_sync|set_tombstone=>write_clear")
+m("c03-wal-update-only-when-map-changed", "C03", "nomt/src/bitbox/mod.rs",
+  "                    changed_meta_pages.insert(meta_map.page_index(bucket as usize));\n                }\n\n                wal_blob_builder.write_update(\n                    page_id.encode(),\n                    &dirty_page.diff,\n                    dirty_page\n                        .diff\n                        .pack_changed_nodes(dirty_page.page.page_data()),\n                    dirty_page.page.elided_children(),\n                    bucket,\n                );\n",
+  "                    changed_meta_pages.insert(meta_map.page_index(bucket as usize));\n                    wal_blob_builder.write_update(\n                        page_id.encode(),\n                        &dirty_page.diff,\n                        dirty_page\n                            .diff\n                            .pack_changed_nodes(dirty_page.page.page_data()),\n                        dirty_page.page.elided_children(),\n                        bucket,\n                    );\n                }\n",
+  "O13|bitbox::DB::prepare_sync|data-page=>write_update")
+m("c03-wal-update-names-page-number", "C03", "nomt/src/bitbox/mod.rs",
+  "                    dirty_page.page.elided_children(),\n                    bucket,\n                );\n\n                let pn = self.shared.store.data_page_index(bucket);",
+  "                    dirty_page.page.elided_children(),\n                    hash,\n                );\n\n                let pn = self.shared.store.data_page_index(bucket);",
+  "O13|bitbox::DB::prepare_sync|write_update(same bucket)")
+m("c03-wal-finalize-dropped", "C03", "nomt/src/bitbox/mod.rs",
+  "        wal_blob_builder.finalize();\n\n        Ok((ht_pages, cache_updates))",
+  "        Ok((ht_pages, cache_updates))",
+  "O13|bitbox::DB::prepare_sync|finalize-last")
+m("c03-wal-reset-after-entries", "C03", "nomt/src/bitbox/mod.rs",
+  "        wal_blob_builder.reset(sync_seqn);\n\n        let mut meta_map = self.shared.meta_map.write();",
+  "        let mut meta_map = self.shared.meta_map.write();",
+  "O13|bitbox::DB::prepare_sync|reset-first",
+  also=[("nomt/src/bitbox/mod.rs", "        wal_blob_builder.finalize();\n\n        Ok((ht_pages, cache_updates))", "        wal_blob_builder.finalize();\n        wal_blob_builder.reset(sync_seqn);\n\n        Ok((ht_pages, cache_updates))")])
+m("benign-wal-clear-before-tombstone", "C03", "nomt/src/bitbox/mod.rs",
+  "                meta_map.set_tombstone(bucket as usize);\n                changed_meta_pages.insert(meta_map.page_index(bucket as usize));\n                cache_updates.push((page_id.clone(), None));\n\n                wal_blob_builder.write_clear(bucket);\n",
+  "                wal_blob_builder.write_clear(bucket);\n                meta_map.set_tombstone(bucket as usize);\n                changed_meta_pages.insert(meta_map.page_index(bucket as usize));\n                cache_updates.push((page_id.clone(), None));\n",
+  None)
+m("benign-wal-update-after-queueing", "C03", "nomt/src/bitbox/mod.rs",
+  "                wal_blob_builder.write_update(\n                    page_id.encode(),\n                    &dirty_page.diff,\n                    dirty_page\n                        .diff\n                        .pack_changed_nodes(dirty_page.page.page_data()),\n                    dirty_page.page.elided_children(),\n                    bucket,\n                );\n\n                let pn = self.shared.store.data_page_index(bucket);\n                cache_updates.push((\n                    page_id.clone(),\n                    Some((dirty_page.page.clone(), BucketIndex(bucket))),\n                ));\n",
+  "                let pn = self.shared.store.data_page_index(bucket);\n                cache_updates.push((\n                    page_id.clone(),\n                    Some((dirty_page.page.clone(), BucketIndex(bucket))),\n                ));\n                wal_blob_builder.write_update(\n                    page_id.encode(),\n                    &dirty_page.diff,\n                    dirty_page\n                        .diff\n                        .pack_changed_nodes(dirty_page.page.page_data()),\n                    dirty_page.page.elided_children(),\n                    bucket,\n                );\n",
+  None)
 # ---------------- C12 / C11 / C09 ----------------
 m("c12-root-check-after-rollback-commit", "C12", "nomt/src/lib.rs",
   "    pub fn commit<T: HashAlgorithm>(self, nomt: &Nomt<T>) -> Result<(), anyhow::Error> {\n        let _write_guard = self.take_global_guard.then(|| nomt.access_lock.write());\n",
